@@ -82,6 +82,19 @@ func (c *Config) persist() error {
 	return nil
 }
 
+// Verifies the configuration as it is written to the file, i.e. without command-line overwrites.
+func (c *Config) verifySaved() error {
+	encoded, err := json.Marshal(c)
+	if err != nil {
+		return err
+	}
+	var saved Config
+	if err := json.Unmarshal(encoded, &saved); err != nil {
+		return err
+	}
+	return saved.verify()
+}
+
 func load(path string) (*Config, error) {
 	f, err := os.Open(path)
 	if err != nil {
